@@ -112,6 +112,15 @@ func (w *World) kubeObjects() []runtime.Object {
 			})
 		}
 		objs = append(objs, svc, es)
+		// a headless twin of the service (clusterIP None => ORIGINAL_DST cluster on the client): its cluster
+		// has ONE transport socket for all endpoints, decided by the client-side inference alone
+		hl := svc.DeepCopy()
+		hl.Name = "hl"
+		hl.Spec.ClusterIP = corev1.ClusterIPNone
+		hes := es.DeepCopy()
+		hes.Name = "hl-1"
+		hes.Labels = map[string]string{discoveryv1.LabelServiceName: "hl"}
+		objs = append(objs, hl, hes)
 	}
 	for _, p := range w.allPolicies() {
 		objs = append(objs, &securityclient.PeerAuthentication{
